@@ -78,7 +78,7 @@ def _run_task(arg):
 
             t0 = _t.time()
             results, rs = run_effects(key)
-            obs = [{"name": f"{pid}/invalidate-on-write/{k}", "kind": "static", "status": "discharged" if ok else "failed", "time": 0.0, "backend": "ast-paths",
+            obs = [{"name": f"{pid}/{getattr(c, 'group', 'invalidate-on-write')}/{k}", "kind": "static", "status": "discharged" if ok else "failed", "time": 0.0, "backend": "ast-paths",
                     "detail": d, "path": [], "model": None} for k, ok, d in results]
             return {"name": f"{pid}/{key}", "target": key, "status": "ok", "message": "", "obligations": obs, "paths": len(obs), "solver_time": 0.0,
                     "wall": _t.time() - t0, "source_hash": hashlib.sha256(repr(rs).encode()).hexdigest()[:16], "used_contracts": [], "inlined": [], "queries": 0, "property": pid,
